@@ -616,13 +616,22 @@ func judgeFailure(res *core.Result, w *env.World, o observation, cat string, det
 				histShape = "history holds a later superseded revision that never was deployed"
 			}
 		}
+		depShape := "no revision was marked deployed before the op"
+		if ref.LatestDeployed(o.before) != nil {
+			depShape = "a revision was marked deployed before the op"
+		}
+		if len(created) >= 2 {
+			depShape += " | the compensating rollback was started and failed"
+		} else {
+			depShape += " | no compensating rollback was started"
+		}
 		if len(created) >= 2 && created[1].Manifest != good.Manifest {
 			res.Add("atomic-upgrade-wrong-manifest", opTag(op)+" | "+histShape, "the atomic rollback created revision %d whose manifest differs from that of revision %d, the most recent revision that had been deployed (ever deployed: %v) | %s", created[1].Revision, good.Revision, keysOf(o.ever), detail())
 			return
 		}
 		top := ref.TopRec(o.after)
 		if top == nil || top.Status != "deployed" || len(created) == 0 || top.Revision <= created[0].Revision {
-			res.Add("atomic-upgrade-not-restored", opTag(op)+" | "+phase+" | "+drops, "failed atomic upgrade did not end with a new highest deployed revision: ledger after [%s] (last good revision %d) | %s", env.LedgerString(o.after), good.Revision, detail())
+			res.Add("atomic-upgrade-not-restored", opTag(op)+" | "+phase+" | "+drops+" | "+depShape, "failed atomic upgrade did not end with a new highest deployed revision: ledger after [%s] (last good revision %d) | %s", env.LedgerString(o.after), good.Revision, detail())
 			return
 		}
 		if top.Manifest != good.Manifest {
